@@ -32,8 +32,8 @@ import (
 // typing.
 
 const (
-	c11PipeEveryQuick    = 41  // every 41st case of the quick tier runs the full pipeline (150 of 6150)
-	c11PipeEveryThorough = 101 // 3000 of 303000
+	c11PipeEveryQuick    = 41 // every 41st case of the quick tier runs the full pipeline (1500 of 61500)
+	c11PipeEveryThorough = 61 // 30000 of 1830000
 )
 
 func c11IsPipe(c *vk.Case) bool {
@@ -47,7 +47,7 @@ func init() {
 	vk.Register(&vk.Check{
 		ID:        "C11",
 		Level:     "exploration",
-		Technique: "reference-projection oracle per stored cell: generated declarations (configuration JSON -> ValidateFix -> production destination) run over generated blocks through Integration.Insert with a recording connection (volume) and through the full path simulated node -> jrpc2 -> dig -> COPY -> fake Postgres (every 41st/101st case); every mismatch is attributed to the binding of its column",
+		Technique: "reference-projection oracle per stored cell: generated declarations (configuration JSON -> ValidateFix -> production destination) run over generated blocks through Integration.Insert with a recording connection (volume) and through the full path simulated node -> jrpc2 -> dig -> COPY -> fake Postgres (every 41st/61st case); every mismatch is attributed to the binding of its column",
 		Rule: "each case draws one integration: log mode (70 %: events of 1-6 inputs in the classes all-indexed [logs without data], mixed, data-present-but-nothing-selected-from-it, integer-widths, arrays; every input independently indexed/non-indexed and selected/unselected, " +
 			"so unselected indexed inputs precede selected ones in about half of the declarations; types uint8..uint256 and int8..int256 in steps of 8 with value patterns {0,1,-1,min,max,random}, address, bool, bytesN, bytes, string, T[] and T[k] of those), " +
 			"tx mode and trace mode (15 % each); 0-6 block/transaction/receipt/log/trace fields in random order, half of them with a column name different from the field name, abi_idx declared explicitly at a random position; " +
@@ -65,18 +65,18 @@ func init() {
 		},
 		NCases: func(tier string) int {
 			if tier == "thorough" {
-				return 303000
+				return 1830000
 			}
-			return 6150
+			return 61500
 		},
 		Run:              c11Run,
 		CrashIsViolation: true,
 		CaseTimeoutS:     120,
 		MinObs: func(tier string) map[string]int64 {
 			return map[string]int64{
-				"cells_compared": 150000, "rows_compared": 20000, "logs_without_data": 1500, "logs_unselected_indexed_before_selected": 4000,
-				"cells_indexed_input": 8000, "cells_negative_int": 1500, "rows_array_element_gt0": 1000, "cells_block_field": 40000,
-				"pipeline_rows_compared": 800, "pipeline_cases_at_head": 100, "direct_inserts": 4000,
+				"cells_compared": 2000000, "rows_compared": 200000, "logs_without_data": 25000, "logs_unselected_indexed_before_selected": 25000,
+				"cells_indexed_input": 120000, "cells_negative_int": 30000, "rows_array_element_gt0": 20000, "cells_block_field": 1500000,
+				"pipeline_rows_compared": 8000, "pipeline_cases_at_head": 1200, "direct_inserts": 50000,
 			}
 		},
 	})
@@ -89,7 +89,7 @@ func init() {
 // directDest renders the declarations as a configuration file, runs
 // config.ValidateFix on it and builds the destination of decls[which] with
 // shovel.NewDestination — the wiring of the real process minus database and node.
-func directDest(decls []*model.Decl, which int) (dest shovel.Destination, confJSON string, err error, p *panicInfo) {
+func directDest(decls []*model.Decl, which int) (dest shovel.Destination, colTypes map[string]string, confJSON string, err error, p *panicInfo) {
 	defer func() {
 		if r := recover(); r != nil {
 			p = capturePanic(r)
@@ -106,18 +106,22 @@ func directDest(decls []*model.Decl, which int) (dest shovel.Destination, confJS
 	}
 	b, merr := json.Marshal(root)
 	if merr != nil {
-		return nil, "", merr, nil
+		return nil, nil, "", merr, nil
 	}
 	confJSON = string(b)
 	var conf config.Root
 	if err = json.Unmarshal(b, &conf); err != nil {
-		return nil, confJSON, fmt.Errorf("decode: %w", err), nil
+		return nil, nil, confJSON, fmt.Errorf("decode: %w", err), nil
 	}
 	if err = config.ValidateFix(&conf); err != nil {
-		return nil, confJSON, fmt.Errorf("validate: %w", err), nil
+		return nil, nil, confJSON, fmt.Errorf("validate: %w", err), nil
+	}
+	colTypes = map[string]string{}
+	for _, col := range conf.Integrations[which].Table.Columns {
+		colTypes[col.Name] = col.Type
 	}
 	dest, err = shovel.NewDestination(conf.Integrations[which])
-	return dest, confJSON, err, nil
+	return dest, colTypes, confJSON, err, nil
 }
 
 func directInsert(dest shovel.Destination, conn wpg.Conn, chainID uint64, blocks []eth.Block) (n int64, err error, p *panicInfo) {
@@ -200,15 +204,21 @@ func ethBlocks(bs []*simnode.Block) []eth.Block {
 
 // storedValue maps a Go value handed to CopyFrom to the value Postgres stores
 // for it (what pgx's codecs encode): see the check's assumptions.
-func storedValue(v any) (fakepg.Value, bool) {
+func storedValue(v any, colType string) (fakepg.Value, bool) {
 	switch x := v.(type) {
 	case nil:
 		return nil, true
 	case *uint256.Int:
 		return x.ToBig(), true
 	case eth.Bytes:
+		if colType == "text" {
+			return string(x), true // pgx's text codec takes the bytes as the string
+		}
 		return []byte(x), true
 	case []byte:
+		if colType == "text" {
+			return string(x), true
+		}
 		return x, true
 	case eth.Uint64:
 		return new(big.Int).SetUint64(uint64(x)), true
@@ -243,7 +253,7 @@ func storedValue(v any) (fakepg.Value, bool) {
 }
 
 // copiedRows converts what a recording connection saw into model rows, in order.
-func copiedRows(cols []string, rows [][]any) ([]model.Row, error) {
+func copiedRows(cols []string, colTypes map[string]string, rows [][]any) ([]model.Row, error) {
 	var out []model.Row
 	for i, vs := range rows {
 		if len(vs) != len(cols) {
@@ -251,7 +261,7 @@ func copiedRows(cols []string, rows [][]any) ([]model.Row, error) {
 		}
 		m := model.Row{}
 		for j, v := range vs {
-			sv, ok := storedValue(v)
+			sv, ok := storedValue(v, colTypes[cols[j]])
 			if !ok {
 				return nil, fmt.Errorf("row %d column %s: value of Go type %T has no known stored form", i, cols[j], v)
 			}
@@ -264,12 +274,15 @@ func copiedRows(cols []string, rows [][]any) ([]model.Row, error) {
 
 // runToHead steps a single task until it idles at the head. It reports panics
 // under kp and returns whether the head was reached plus the last real error.
-func runToHead(c *vk.Case, env *scen.Env, task *shovel.Task, chain *simnode.Chain, kp string, detail map[string]any) (bool, string) {
+func runToHead(c *vk.Case, env *scen.Env, task *shovel.Task, chain *simnode.Chain, kp string, detail map[string]any, onStep func(*scen.StepResult)) (bool, string) {
 	idle, lastErr := 0, ""
 	max := int(chain.Head().Num)*2 + 25
 	for i := 0; i < max && idle < 3; i++ {
 		res := env.Step(task)
 		c.Obs("steps", 1)
+		if onStep != nil {
+			onStep(res)
+		}
 		if res.Panic != "" {
 			fr := vk.TopShovelFrame(res.Panic)
 			c.Violate(kp+"panic:"+fr, merge(detail, map[string]any{"panic": firstLines(res.Panic, 30)}), "Converge panicked in %s: %s", fr, firstLines(res.Panic, 1))
@@ -428,6 +441,24 @@ type c11Info struct {
 	Rename  map[string]string
 }
 
+func (info *c11Info) countIndexed(inputs []refmodel.Field) {
+	unselBefore := false
+	for _, f := range inputs {
+		if !f.Indexed {
+			continue
+		}
+		info.NIdx++
+		if f.Column == "" {
+			unselBefore = true
+			continue
+		}
+		info.NSelIdx++
+		if unselBefore {
+			info.UBS = true
+		}
+	}
+}
+
 // c11Event draws the inputs of an event of the given class, selections included.
 func c11Event(r *vk.RNG, class string) []refmodel.Field {
 	var idx, dat []refmodel.Field
@@ -537,21 +568,7 @@ func c11Decl(r *vk.RNG, mode model.Mode, traceCustom bool) (*model.Decl, *c11Inf
 		info.Class = vk.Pick(r, c11Classes)
 		d.EventName = gen.EventName(r)
 		d.Inputs = c11Event(r, info.Class)
-		unselBefore := false
-		for _, f := range d.Inputs {
-			if !f.Indexed {
-				continue
-			}
-			info.NIdx++
-			if f.Column == "" {
-				unselBefore = true
-				continue
-			}
-			info.NSelIdx++
-			if unselBefore {
-				info.UBS = true
-			}
-		}
+		info.countIndexed(d.Inputs)
 	}
 	var pool []gen.FieldInfo
 	for _, f := range gen.Fields {
@@ -733,6 +750,22 @@ func bigOf(v fakepg.Value) (uint64, bool) {
 	return 0, false
 }
 
+// c11SortRows orders rows by (block_num, tx_idx, log_idx, trace_action_idx,
+// abi_idx), keeping the given order among equals.
+func c11SortRows(rows []model.Row) {
+	keys := []string{"block_num", "tx_idx", "log_idx", "trace_action_idx", "abi_idx"}
+	sort.SliceStable(rows, func(i, j int) bool {
+		for _, k := range keys {
+			a, _ := bigOf(rows[i][k])
+			b, _ := bigOf(rows[j][k])
+			if a != b {
+				return a < b
+			}
+		}
+		return false
+	})
+}
+
 type c11LogRef struct {
 	b  *simnode.Block
 	tx *simnode.Tx
@@ -833,6 +866,9 @@ func c11Attribute(d *model.Decl, binds map[string]c11Bind, col string, got, want
 		ex := map[string]any{"input": f.Name, "type": f.Type.Canonical(), "own_topic_position": own}
 		if lr != nil {
 			for k := 1; k < len(lr.l.Topics); k++ {
+				if f.Type.Kind == refmodel.KBool && !unselBefore {
+					break // a bool equals another topic's reading half of the time: no evidence of misbinding
+				}
 				if k != own && model.CanonValue(model.Typed(f.Type, lr.l.Topics[k])) == model.CanonValue(got) {
 					ex["holds_topic_position"] = k
 					cause := "other"
@@ -1032,11 +1068,51 @@ func c11Mode(r *vk.RNG) model.Mode {
 	return model.ModeTrace
 }
 
+// c11Catalogue: hand-written minimal declarations, run first so that the
+// witness kept for a key is as small as the defect allows.
+func c11Catalogue() []struct {
+	name   string
+	inputs []refmodel.Field
+} {
+	A, U, I8 := refmodel.Address(), refmodel.Uint(256), refmodel.Int(8)
+	f := func(n string, t refmodel.Type, indexed bool, col string) refmodel.Field {
+		return refmodel.Field{Name: n, Type: t, Indexed: indexed, Column: col}
+	}
+	return []struct {
+		name   string
+		inputs []refmodel.Field
+	}{
+		{"Transfer", []refmodel.Field{f("from", A, true, "f"), f("to", A, true, "t"), f("value", U, false, "v")}},         // control: everything selected
+		{"Transfer", []refmodel.Field{f("from", A, true, ""), f("to", A, true, "t"), f("value", U, false, "v")}},          // unselected indexed before selected, with data
+		{"Transfer", []refmodel.Field{f("from", A, true, "f"), f("to", A, true, ""), f("value", U, false, "v")}},          // control: unselected indexed after selected
+		{"Pair", []refmodel.Field{f("a", A, true, ""), f("b", A, true, "b")}},                                             // all indexed (log without data), first unselected
+		{"Pair", []refmodel.Field{f("a", A, true, "a"), f("b", A, true, "")}},                                             // control
+		{"Transfer", []refmodel.Field{f("from", A, true, ""), f("to", A, true, "t"), f("value", U, false, "")}},           // data present, nothing selected from it
+		{"Delta", []refmodel.Field{f("x", I8, true, "x"), f("y", I8, false, "y"), f("z", refmodel.Int(256), false, "z")}}, // small signed widths
+		{"Batch", []refmodel.Field{f("who", A, true, "who"), f("ids", refmodel.ArrayOf(refmodel.Uint(64)), false, "id")}}, // element index
+	}
+}
+
 func c11Direct(c *vk.Case) {
 	r := c.R
+	if c.Index == 1 {
+		for _, e := range c11Catalogue() {
+			d := &model.Decl{Name: namePoolIG[0], Enabled: true, Table: namePoolTbl[0], ColTypes: map[string]string{}, InFilter: map[string]model.Filter{}, EventName: e.name, Inputs: e.inputs}
+			d.Sources = []model.SrcRef{{Name: namePoolSrc[0], Start: 1}}
+			info := &c11Info{Mode: model.ModeLog, Class: "catalogue", Rename: map[string]string{}}
+			info.countIndexed(d.Inputs)
+			c11DirectRun(c, r, d, info)
+		}
+		return
+	}
 	mode := c11Mode(r)
 	traceCustom := mode == model.ModeTrace && r.Chance(1, 6)
 	d, info := c11Decl(r, mode, traceCustom)
+	c11DirectRun(c, r, d, info)
+}
+
+func c11DirectRun(c *vk.Case, r *vk.RNG, d *model.Decl, info *c11Info) {
+	mode, traceCustom := info.Mode, len(info.Rename) > 0
 	addrs := [][]byte{r.Bytes(20), r.Bytes(20), r.Bytes(20), r.Bytes(20)}
 	chain, _ := c11Chain(r, d, mode, addrs)
 	chain.Grow(r.Range(2, 4))
@@ -1048,7 +1124,7 @@ func c11Direct(c *vk.Case) {
 		kp = "trace-custom-column:"
 	}
 
-	dest, confJSON, err, p := directDest([]*model.Decl{d}, 0)
+	dest, colTypes, confJSON, err, p := directDest([]*model.Decl{d}, 0)
 	detail["config"] = confJSON
 	switch {
 	case p != nil:
@@ -1069,7 +1145,7 @@ func c11Direct(c *vk.Case) {
 		c.Violate(kp+"insert-error:"+errKey(err.Error()), merge(detail, map[string]any{"error": err.Error()}), "Integration.Insert failed on well-formed blocks: %v", err)
 		return
 	}
-	got, cerr := copiedRows(rc.cols, rc.rows)
+	got, cerr := copiedRows(rc.cols, colTypes, rc.rows)
 	if cerr != nil {
 		c.Inconclusive("direct path: %v", cerr)
 		return
@@ -1123,7 +1199,7 @@ func c11Pipeline(c *vk.Case) {
 	plan := task.VerifInfo().Filter
 	detail["plan"] = plan
 	pm := newPairMon(c, env, namePoolSrc[0], d.Name)
-	reached, lastErr := runToHead(c, env, task, chain, "pipeline:", detail)
+	reached, lastErr := runToHead(c, env, task, chain, "pipeline:", detail, nil)
 	if len(c.Res.Violations) > 0 {
 		return
 	}
@@ -1149,8 +1225,12 @@ func c11Pipeline(c *vk.Case) {
 		}
 		return
 	}
+	// steps may insert the partitions of a batch in any order: pair stored and
+	// expected rows by traversal position (block, tx, log/trace, element)
 	sort.Slice(rows, func(i, j int) bool { return rows[i].ID < rows[j].ID })
 	got := model.StoredRows(t, rows)
+	c11SortRows(got)
+	c11SortRows(want)
 	cm := &c11Cmp{c: c, d: d, info: info, path: "pipeline", blocks: blocks, detail: detail}
 	cols := tableCols(t)
 	cm.compare(got, want, cols)
